@@ -106,6 +106,21 @@ class KeyError_:
     pass
 
 
+class SKey(str):
+    """A str subclass used as a dict key (StrEnum-like)."""
+
+
+class EmptyMeta(type):
+    """Class objects of this metaclass are falsy (an empty registry)."""
+
+    def __len__(cls):
+        return 0
+
+
+class Registry(metaclass=EmptyMeta):
+    pass
+
+
 class MyList(list):
     pass
 
@@ -141,4 +156,4 @@ def make_gen():
     return genfunc()
 
 
-CLASSES = [TimeoutError, Warning, A, B, C, D, M, R1, R2, X1, X2, X3, X4, X5, X6, Outer, Outer.Inner, Outer.Inner.Deep, E1, E2, E3, E4, E5, E6]
+CLASSES = [SKey, Registry, TimeoutError, Warning, A, B, C, D, M, R1, R2, X1, X2, X3, X4, X5, X6, Outer, Outer.Inner, Outer.Inner.Deep, E1, E2, E3, E4, E5, E6]
